@@ -599,6 +599,8 @@ class BlockRun:
             import importlib
 
             getattr(importlib.import_module(mod), name)(cur)
+        if cfg.get('second_run') and outcome == ('ok',) and uend is not None:
+            self.second_leg(cur, ctrl, uend)
         if cfg.get('debug'):
             print('\n'.join(describe(cur)))
             if cfg.get('debug_types') and stats is not None:
@@ -608,6 +610,60 @@ class BlockRun:
                         print('   stat', k.type, 't=%r' % k.time, 'proc', k.process, 'iter', k.iter, 'nr', k.num_restarts, 'val', v if not hasattr(v, 'tobytes') else '<arr>')
         niters = tuple((a['block'], a['slot'], a.get('iter_at_post')) for a in attempts)
         return Outcome(cur.viol, cur.states, (outcome, niters), extra=cur.extra if hasattr(cur, 'extra') else None)
+
+    def second_leg(self, cur, ctrl, uend):
+        """A second run() on the same controller, continued from the value and time the first one reached; the same
+        per-leg clause checks are applied to it (violations are tagged with leg=2)."""
+        global CUR
+        import importlib
+
+        cfg = dict(cur.cfg)
+        from vf.props._hist import accepted_chain
+
+        acc = accepted_chain(cur)
+        last = acc[-1]
+        t0 = last['time'] + last['post']['dt']
+        cfg['t0'] = t0
+        cfg['Tend'] = t0 + cfg['second_run']
+        cur2 = Cur(cur.ctx, cfg)
+        cur2.block = cur.block
+        cur2.is_second_leg = True
+        cur2.controller = ctrl
+        cur2.step_of_level = cur.step_of_level
+        if hasattr(cur, 'real_prop'):
+            cur2.real_prop = cur.real_prop
+        cur2.u0_bytes = uend.tobytes()
+        cur2.u0_obj = uend
+        cur2.Tend = cfg['Tend']
+        CUR = cur2
+        outcome = None
+        u2 = stats2 = None
+        try:
+            u2, stats2 = ctrl.run(u0=uend, t0=t0, Tend=cfg['Tend'])
+            outcome = ('ok',)
+        except Horizon as e:
+            cur2.v('non_termination', msg=str(e))
+            outcome = ('horizon',)
+        except ConvergenceError:
+            outcome = ('convergence_error',)
+        except (ReplayDivergence, KeyboardInterrupt):
+            raise
+        except Exception as e:  # noqa
+            cur2.v('unexpected_exception', exc=type(e).__name__, msg=str(e)[:200], where='second run')
+            outcome = ('exc', type(e).__name__)
+        finally:
+            CUR = None
+        cur2.stats, cur2.uend, cur2.outcome0 = stats2, u2, outcome
+        cur2.attempts = split_attempts(cur2.log)
+        for fn in cfg.get('post_checks', ()):
+            mod, _, name = fn.partition(':')
+            getattr(importlib.import_module(mod), name)(cur2)
+        for sig, det in cur2.viol:
+            sig = dict(sig)
+            sig['leg'] = 2
+            cur.viol.append((sig, det))
+        cur.states += cur2.states
+        cur.attempts += cur2.attempts
 
     # ---- per-execution checks ---------------------------------------------------------------
     @staticmethod
